@@ -499,6 +499,8 @@ class C06(Prop):
     lean_modules = ["NV.C06.Props", "NV.C06.Witness"]
     theorems = ["NV.C06.prog_widths_agree", "NV.C06.incRef_prog_matches", "NV.C06.decRef_prog_matches", "NV.C06.no_dangling_reference",
                 "NV.C06.program_alive_while_referenced", "NV.C06.prog_ref_eq_holders", "NV.C06.unreferenced_is_deallocated",
+                "NV.C06.holders_eq_H", "NV.C06.run_DE", "NV.C06.oracle_ref_clause", "NV.C06.oracle_freed_clause", "NV.C06.oracle_leak_clause",
+                "NV.C06.oracle_string_clauses",
                 "NV.C06.widths_agree", "NV.C06.ref_eq_holders", "NV.C06.no_free_while_held",
                 "NV.C06.primitives_preserve_invariant", "NV.C06.string_never_freed_while_held", "NV.C06.string_cells_never_freed_while_held",
                 "NV.C06.string_saturates", "NV.C06.no_inplace_modification_while_shared", "NV.C06.extendInPlace_sole",
@@ -546,8 +548,10 @@ class C06(Prop):
                   "~120 opcode cases follows the convention on every path is only observed (72 efun/operator groups: per-value "
                   "counters and statistics equal the model after every operation, also with an error injected at every "
                   "instruction of 69 of them, counters back at the baseline, ASan), not proved.  The top statement "
-                  "`judge (model trace) = []` is not proved (the oracle is executed on the model's own traces and on 42 corrupted "
-                  "ones on every run instead).  "
+                  "`judge (model trace) = []` is proved clause-wise only for the per-value comparisons (oracle_ref_clause, "
+                  "oracle_freed_clause, oracle_leak_clause, oracle_string_clauses: on every model state the oracle's holder count equals "
+                  "the counter / is 0 for freed values); the simulation between the oracle's graph machine and the counting machine is not "
+                  "proved (the oracle is executed on the model's own traces and on 39 corrupted ones on every run instead).  "
                   "Trusted: Lean kernel; extract.py; the correspondence harness (differential, only the generated histories); "
                   "AddressSanitizer's poisoning as the 'has been freed' observation.")
     rule = ("cases = corpus + known-finding inputs + boundary list + seeded random histories (about 40 operations + "
@@ -571,8 +575,10 @@ class C06(Prop):
     not_covered = ["that every efun (~250) and every opcode case (~120) follows the ownership convention on every path, "
                    "including every error path, is observed on the generated programs only (72 efun/operator groups, 69 of them "
                    "with an error injected at every instruction), not proved; never called: shadow, command / this_player hooks, ed, sockets",
-                   "the top statement judge (model trace) = [] (simulation between the counting machine and the declarative "
-                   "fixpoint machine of the oracle) is not proved; the oracle is exercised on the model's traces and on corrupted ones",
+                   "the top statement judge (model trace) = [] is proved only clause-wise for the per-value comparisons on model states "
+                   "(oracle_*_clause); the simulation between the counting machine and the declarative fixpoint machine of the oracle "
+                   "(same state after every operation) and the statistics clauses are not proved; the oracle is exercised on the model's "
+                   "traces and on corrupted ones",
                    "func_ref of programs is not modelled as a counter (only its width is an obligation); swapping, load_binary "
                    "and total_num_prog_blocks are not modelled; replaceable() is not called",
                    "one interactive user (create_test_interactive of the repository), input_to / get_char with flag 0 only; a "
